@@ -14,9 +14,12 @@ import re
 CATALOG = None
 
 
-def load_catalog(path="/verif/engines/e2e/app/catalog.json"):
+def load_catalog(path=None):
     global CATALOG
     if CATALOG is None:
+        if path is None:
+            import lib_e2e
+            path = f"{lib_e2e.APP}/catalog.json"
         with open(path) as f:
             CATALOG = {c["id"]: c for c in json.load(f)}
     return CATALOG
